@@ -11,6 +11,8 @@ TRUSTED = [
     "(tied to /repo by the correspondence run, not verified code)",
     "Go harness harness/cmd/hC05 (generators, QPR canonicalisation, in-memory fractions for the high-volume SearchDocs "
     "cases, in-process StoreApiClient adapter around storeapi.GrpcV1.Search) and harness/internal/fracbuild",
+    "spec-checker clause without a theorem: when every merged part counts exactly its own IDs and the limit cuts nothing, "
+    "MergeQPRs' Total and histogram count every distinct ID once (tested on the pure merge cases only)",
     "which documents match the query inside ONE fraction is decided by the harness's own k-in-set oracle; it is "
     "cross-checked on every real case against a real single fraction holding everything (query evaluation is C02's subject)",
 ]
